@@ -227,8 +227,29 @@ func (g *Gen) Media() *playlist.Media {
 			s.Bitrate = &v
 		}
 		if g.opt("segment", 5) {
-			if curKey == nil || g.chance(0.5) {
+			switch {
+			case curKey == nil || g.chance(0.4):
 				curKey = g.key()
+			case curKey.Method != playlist.MediaKeyMethodNone && g.chance(0.7):
+				// key rotation that changes exactly one attribute (e.g. only the IV)
+				k := *curKey
+				switch g.R.Intn(5) {
+				case 0:
+					k.IV = "0x" + g.str("0123456789abcdef", 32, 32)
+				case 1:
+					k.URI = g.QuotedStr(1)
+				case 2:
+					k.KeyFormat = g.QuotedStr(1)
+				case 3:
+					k.KeyFormatVersions = g.str("0123456789/", 1, 5)
+				default:
+					if k.Method == playlist.MediaKeyMethodAES128 {
+						k.Method = playlist.MediaKeyMethodSampleAES
+					} else {
+						k.Method = playlist.MediaKeyMethodAES128
+					}
+				}
+				curKey = &k
 			}
 		}
 		s.Key = curKey
